@@ -128,6 +128,7 @@ def run_case(case, ctx):
         else:
             ctx.count("unjudged_float_evals")
     # scalar vs sequence dispatch
+    pscale = max([1.0] + [abs(float(c)) for pt in rc.P for c in pt])
     nums = [lib.num(u, nt) for u in params]
     for mk, label in ((tuple, "tuple"), (list, "list"), (lambda x: lib.container(x, "array"), "numpy array")):
         o = call(curve.eval, mk(nums))
@@ -139,7 +140,7 @@ def run_case(case, ctx):
             for u, a, b in zip(params, res, scalar_results):
                 if b is None:
                     continue
-                ctx.check(lib.digest(a) == lib.digest(b) or (not exact and lib.pts_close(a, lib.pt_tuple(b), 1e-12)),
+                ctx.check(lib.digest(a) == lib.digest(b) or (not exact and lib.pts_close(a, lib.pt_tuple(b), 1e-12, pscale)),
                           "eval:seq-order", f"sequence result at u={u} differs from the scalar call: {lib.short(a)} vs {lib.short(b)}")
     # nodes of one call may come in any order (and repeated)
     import random as _random
@@ -156,7 +157,7 @@ def run_case(case, ctx):
                 b = scalar_results[i] if i < len(scalar_results) else None
                 if b is None:
                     continue
-                ctx.check(lib.digest(a) == lib.digest(b) or (not exact and lib.pts_close(a, lib.pt_tuple(b), 1e-12)),
+                ctx.check(lib.digest(a) == lib.digest(b) or (not exact and lib.pts_close(a, lib.pt_tuple(b), 1e-12, pscale)),
                           f"eval:seq-order:{label}", f"{label} sequence: result at u={params[i]} differs from the scalar call: {lib.short(a)} vs {lib.short(b)}")
     # outside and non numbers
     state0 = lib.curve_digest(curve)
